@@ -1,13 +1,22 @@
 #!/bin/bash
-# tools/mutant.sh <patch> <property> [tier]: apply a breaking change to /repo, run the check, undo it.
-# Prints the verdict line; exit 0 if the check reported a violation (mutant killed), 1 if it survived.
+# tools/mutant.sh <patch> <property> [tier]: apply a breaking change to a SCRATCH COPY of /repo (never /repo
+# itself), point the check at the copy (VERIF_REPO), report whether the check caught it, clean up.
+# Scratch copies live in fixed slots /tmp/verif-mut/slot<k>/repo (fixed paths keep the Go build cache warm);
+# a slot is held with flock, so several sensitivity runs can go on side by side.
+# exit 0 if the check reported a violation (mutant killed), 1 if it survived, 2 on trouble.
 set -u
 patch=$(realpath "$1"); prop=$2; tier=${3:-quick}
-cd /repo || exit 2
-if ! git diff --quiet; then echo "/repo has uncommitted changes"; exit 2; fi
-git apply "$patch" || { echo "patch does not apply"; exit 2; }
-cd /verif && out=$(./check "$prop" "$tier" 2>&1); rc=$?
-git -C /repo checkout -- . 
+base=/tmp/verif-mut; mkdir -p $base
+for k in 0 1 2 3 4 5; do
+  exec 9>$base/slot$k.lock
+  if flock -n 9; then slot=$base/slot$k; break; fi
+done
+[ -z "${slot:-}" ] && { exec 9>$base/slot0.lock; flock 9; slot=$base/slot0; }
+mkdir -p $slot/repo
+rsync -a --delete --exclude .git /repo/ $slot/repo/ || exit 2
+( cd $slot/repo && patch -p1 -s --no-backup-if-mismatch < "$patch" ) || { echo "patch does not apply"; exit 2; }
+cd /verif && out=$(VERIF_REPO=$slot/repo VERIF_JOBS=${VERIF_JOBS:-8} ./check "$prop" "$tier" 2>&1); rc=$?
 echo "$out" | grep -E "^(VIOLATION|property=|INFRA|  violation|KNOWN)" | cut -c1-300 | head -8
+rsync -a --delete --exclude .git /repo/ $slot/repo/
 if [ $rc -eq 1 ]; then echo "KILLED $patch by $prop/$tier"; exit 0; fi
 echo "SURVIVED(rc=$rc) $patch vs $prop/$tier"; exit 1
